@@ -479,6 +479,14 @@ func checkC06(c *hx.Checker) {
 				jobs = append(jobs, ja)
 			}
 		}
+		// larger geometries beyond the exhaustive box
+		for _, g := range [][4]int{{12, 4, 5, 9}, {20, 1, 3, 16}, {2, 7, 11, 4}} {
+			v := recCfg{Op: op, DT: "float32", S: g[0], B: g[1], I: g[2], H: g[3], HasB: true, HasH0: true, HasC0: op == "LSTM", HasP: op == "LSTM", Route: "op"}
+			jl := v.job()
+			jl.tags = append(jl.tags, "large")
+			jobs = append(jobs, jl)
+			splits = append(splits, recSplit{ReplayKind: "rec-split", Cfg: v, K: g[0] / 2})
+		}
 		// float64 sub-box
 		for _, g := range [][4]int{{2, 2, 2, 2}, {1, 1, 2, 3}, {3, 2, 1, 2}} {
 			for mask := 0; mask < 4; mask++ {
